@@ -609,11 +609,12 @@ end Ring
 
 /-! ## the full operation set (statement; proved part above, rest tied by correspondence) -/
 
-/-- What is still missing for the full-strength sequence statement over the driver's complete operation set:
-`getitem`, `squeeze`, `apply_tprod`, `pad` on TensorSum / TensorProd (and ndarray) operands — the Canonical and Tucker
-cases are proved (`faithful_getitem_leaf`, `faithful_squeeze_leaf`, `faithful_nway_leaf`, `faithful_pad_leaf`) and are
-steps of `faithful_seq_partial`.  The statement below is the getitem clause for an arbitrary (nested) tensor object.
-NOT proved; covered by the exact correspondence diff and the numpy oracle on every generated step. -/
+/-- What is still missing for the full-strength sequence statement over the driver's complete operation set: `getitem`
+on operands containing a TensorProd node (the index tuple is split among the factors).  Everything else — `getitem` on
+ndarray/Canonical/Tucker/nested TensorSum (`faithful_getitem`), `squeeze`, `apply_tprod` and `pad` on every object
+(`faithful_nway`, `faithful_pad`) — is proved and is a step of `faithful_seq_partial`.  The statement below is the getitem
+clause for an arbitrary tensor object.  NOT proved in this generality; covered by the exact correspondence diff and the
+numpy oracle on every generated step. -/
 def faithful_seq_full (α : Type) [CommRing α] [DecidableEq α] : Prop :=
   ∀ (T T' : Ten α) (I : List PyIndex), T.WF → T.getitem I = .ok (.t T') →
     ∃ n, normalizeIndices I T.shape = .ok n ∧ (T.asarray.take n.idx).squeeze n.singl = .ok T'.asarray
@@ -884,6 +885,27 @@ theorem aca_cross (A X : Mat α) (i j0 : Nat) (hi : i < A.rows) (hj : j0 < A.col
     have h1 := hz a ha
     have h2 := hz i hi
     rw [h2, mul_zero, add_zero]; exact h1
+
+/-- **exact recovery, rank 1 (partial)**: if `A = u vᵀ` and the approximation is still zero, one cross step of `aca`
+with any pivot `(i, j0)` at which `A` does not vanish reproduces `A` exactly (exact arithmetic, any field) — the
+Wedderburn rank-reduction step for rank 1.  Ranks `r ≥ 2` (each cross step lowers the rank of the error by one) are
+NOT proved in Lean; they are exercised by the replayed `aca`/`aca_lr` stream on exactly-rank-r matrices. -/
+theorem aca_exact_rank1_partial (A X : Mat α) (u v : Nat → α) (i j0 : Nat) (hi : i < A.rows) (hj : j0 < A.cols)
+    (hA : ∀ a b, a < A.rows → b < A.cols → A.get a b = u a * v b)
+    (hX : ∀ a b, a < A.rows → b < A.cols → X.get a b = 0)
+    (hp : u i * v j0 ≠ 0) :
+    let Erow := (List.range A.cols).map (fun j => X.get i j - A.get i j)
+    let col := (List.range A.rows).map (fun a => A.get a j0 - X.get a j0)
+    let X' := rank1Update X (1 / Erow.getD j0 0) col Erow
+    ∀ a b, a < A.rows → b < A.cols → X'.get a b = A.get a b := by
+  intro Erow col X' a b ha hb
+  have hui : u i ≠ 0 := fun h => hp (by rw [h, zero_mul])
+  have hvj : v j0 ≠ 0 := fun h => hp (by rw [h, mul_zero])
+  simp only [X', rank1Update, Erow, col]
+  rw [getD_map_range _ _ _ hj, getD_map_range _ _ _ ha, getD_map_range _ _ _ hb]
+  rw [hX a b ha hb, hX i j0 hi hj, hX a j0 ha hj, hX i b hi hb, hA i j0 hi hj, hA a j0 ha hj, hA i b hi hb, hA a b ha hb]
+  field_simp
+  ring
 
 /-- non-vacuity of `aca_cross`: a 2×2 matrix, zero start, pivot (1,0) -/
 example : ((⟨2, 2, fun a b => if a = 1 ∧ b = 0 then (3 : Rat) else 1⟩ : Mat Rat).get 1 0) ≠ 0 := by
